@@ -622,9 +622,24 @@ def reaching(func, node):
     return node
 
 
+def constructor_bypass(model, R):
+    """Every Context is built by ``cls(...)`` / ``Context(...)`` and therefore validated by __init__: no code in contexts.py creates an
+    instance with ``__new__`` (pickle restores state through __setstate__, which the interpreter calls itself)."""
+    mod = model.module('contexts')
+    n = 0
+    for f in mod.funcs.values():
+        for node in walk(f.body):
+            if isinstance(node, ast.Call) and isinstance(node.func, ast.Attribute) and node.func.attr == '__new__':
+                n += 1
+                R.bad('VALIDATE-BEFORE-CONSTRUCT', f, node, 'contexts are only created through the validating __init__', 'cls(objects, properties, bools)',
+                      src(node)[:80], extra={'consequence': 'an instance built with __new__ skips the emptiness / duplicate / overlap / shape checks'})
+    R.ok('VALIDATE-BEFORE-CONSTRUCT', 'contexts', 'concepts/contexts.py', f'{n} __new__ calls in contexts.py (expected 0)')
+
+
 def run(model, R):
     R.floor('RAISES-VALUEERROR', 11)
     R.floor('GUARD', 14)
     R.guard('GUARD', None, 'Context.__init__', init_rules, model, R)
     R.guard('GUARD', None, 'Context.fromdict', fromdict_rules, model, R)
+    R.guard('VALIDATE-BEFORE-CONSTRUCT', None, 'contexts.py', constructor_bypass, model, R)
     return __doc__.strip()
